@@ -53,6 +53,25 @@ Verdict(r, d, ch, binds, wild) ==
   ELSE "Accept"
 
 
+\* ------------------------------------------------------------------ the root of trust is a LIST of key slots
+\* What the device holds in its fuses - and what the image tools compute for the same keys (C03) - is a hash over one entry PER SLOT, in
+\* slot order, whether or not two slots hold the same key (pat: slot i holds key number pat[i], DatLayout.Patterns):
+\*   "rsa" (certificate block v1)   : SHA-256 over four 32-byte entries, entry i = hash of the key of slot i, unused slots = zeros
+\*   "ecc" (certificate block v2.1) : one slot - the hash of the key itself; more - the hash over the table of the n key hashes
+\*   "srk" (AHAB SRK table)         : the hash over the table of the n key records
+\* An entry is the term [kh |-> number of the key] (kh = 0 - 1: a slot filled with zeros).
+RotEntries(pat) == [i \in 1..Len(pat) |-> [kh |-> pat[i]]]
+RotHashTerm(kind, pat) ==
+  CASE kind = "rsa" -> [h |-> "table-v1", over |-> RotEntries(pat) \o [i \in 1..(4 - Len(pat)) |-> [kh |-> 0 - 1]]]
+    [] kind = "ecc" -> [h |-> IF Len(pat) = 1 THEN "key" ELSE "table-v21", over |-> RotEntries(pat)]
+    [] kind = "srk" -> [h |-> "srk-table", over |-> RotEntries(pat)]
+RotKinds == {"rsa", "ecc", "srk"}
+\* the slot the credential names holds the key it is signed with: entry `used` of the table is the hash of that key
+NamedEntry(kind, pat, used) == RotHashTerm(kind, pat).over[used + 1]
+\* (a host that reads every key FILE once and builds the table over what it has read - the keys in order of first appearance - has
+\*  hashed a SET, not the list; DatGen.ListNotSet: for every pattern with a repeated key that is another term)
+ReadOnce(pat) == [i \in 1..Cardinality({pat[j] : j \in 1..Len(pat)}) |-> i - 1]
+
 \* ------------------------------------------------------------------ what the intruder can put on the wire
 \* he owns the debug key of cI and cE and signs what he likes, whenever he likes
 Forgeries(binds) == {Resp(binds, c, b, u, ch) : c \in IntruderCreds, b \in Beacons, u \in Devices, ch \in Chals}
